@@ -19,6 +19,8 @@ pub enum Op {
     AddArray { k: u8 },
     AddByte,
     Clone,
+    /// `Clone::clone_from` into a destination that had a life of its own (see `dirty_destination`)
+    CloneFrom { dirty: u8 },
     /// variant: 0 finalize, 1 without truncation, 2 raw<false,64,32>, 3 raw<true,64,64>
     Finalize,
     /// feed up to (anchor-th interesting position + delta)
@@ -115,6 +117,46 @@ fn feed(g: &mut Generator, chunk: &[u8], form: u8, forms: &mut u32) -> Result<()
             })
         }
     }
+}
+
+/// Destinations for `clone_from`: generators that processed something else before (a small declared size and a
+/// few bytes; a busy life that opened many block-size levels; a finished declared life; an older state of
+/// the same stream) - whatever they held must be gone after `clone_from`.
+fn dirty_destination(dirty: u8, clones: &[(Generator, usize)]) -> Result<Generator, String> {
+    static NOISE: std::sync::OnceLock<Vec<u8>> = std::sync::OnceLock::new();
+    let mut d = Generator::new();
+    match dirty % 5 {
+        0 => {}
+        1 => {
+            let _ = must("set_fixed_input_size", || d.set_fixed_input_size(100))?;
+            must("update", || {
+                d.update(&[0x55u8; 37]);
+            })?;
+        }
+        2 => {
+            let noise = NOISE.get_or_init(|| {
+                let mut v = vec![0u8; 24_000];
+                oracle::words::SplitMix(0xC03).fill(&mut v);
+                v
+            });
+            must("update", || {
+                d.update(noise);
+            })?;
+        }
+        3 => {
+            let _ = must("set_fixed_input_size", || d.set_fixed_input_size(3))?;
+            must("update", || {
+                d.update(b"abc");
+            })?;
+            let _ = must("finalize", || d.finalize())?;
+        }
+        _ => {
+            if let Some((old, _)) = clones.first() {
+                d = must("clone", || old.clone())?;
+            }
+        }
+    }
+    Ok(d)
 }
 
 fn one_shot_text(zero_prefix: u64, data: &[u8]) -> Result<(String, String), String> {
@@ -216,6 +258,12 @@ pub fn eval(case: &Case, st: &mut Stats) -> Result<(), String> {
                 clones.push((std::mem::replace(&mut g, c), pos));
                 st.class("clone");
             }
+            Op::CloneFrom { dirty } => {
+                let mut dst = dirty_destination(*dirty, &clones)?;
+                must("clone_from", || dst.clone_from(&g))?;
+                clones.push((std::mem::replace(&mut g, dst), pos));
+                st.class("clone_from_into_used_destination");
+            }
             Op::Finalize => {
                 if finals < 3 {
                     finals += 1;
@@ -311,6 +359,7 @@ fn op(max: u32) -> impl Strategy<Value = Op> {
         2 => (0u8..5).prop_map(|k| Op::AddArray { k }),
         1 => Just(Op::AddByte),
         1 => Just(Op::Clone),
+        1 => (0u8..5).prop_map(|dirty| Op::CloneFrom { dirty }),
         1 => Just(Op::Finalize),
         6 => (any::<u16>(), -7i8..=7, 0u8..5).prop_map(|(anchor, delta, form)| Op::UpdateTo { anchor, delta, form }),
     ]
@@ -338,7 +387,7 @@ pub fn subchecks(tier: Tier) -> Vec<SubCheck> {
     };
     vec![generated(
         "histories_vs_one_shot",
-        "(byte program, call history): update / update_by_iter (exact and inexact size_hint) / update_by_byte / += slice / += array of 1,2,7,8,64 / += byte / clone / mid-stream finalize, chunk sizes 0, 1..8, log-uniform, and cuts placed -7..+7 around piece boundaries and elimination points; final finalize*, input_size, hash_buf, hash_stream with generated read sizes equal the one-shot result (and the reference model); every mid-stream finalize equals the one-shot hash of the prefix; clone sources stay untouched; non-trivial = >= 2 update forms and a cut inside a trigger window and >= 1 piece at the selected level; distinct by (program, history)",
+        "(byte program, call history): update / update_by_iter (exact and inexact size_hint) / update_by_byte / += slice / += array of 1,2,7,8,64 / += byte / clone / clone_from into a used destination / mid-stream finalize, chunk sizes 0, 1..8, log-uniform, and cuts placed -7..+7 around piece boundaries and elimination points; final finalize*, input_size, hash_buf, hash_stream with generated read sizes equal the one-shot result (and the reference model); every mid-stream finalize equals the one-shot hash of the prefix; clone sources stay untouched; non-trivial = >= 2 update forms and a cut inside a trigger window and >= 1 piece at the selected level; distinct by (program, history)",
         tier.pick(120_000, 800_000),
         move || strategy(wt_seed(), tier),
         eval,
